@@ -244,6 +244,11 @@ def numsize(draw):
     flags = (draw(base_flags) & ~F['CLEANSTACK']) | (F['CHECKLOCKTIMEVERIFY'] | F['CHECKSEQUENCEVERIFY'] if lock else 0)
     top = draw(st.sampled_from([0x01, 0x7f, 0x40]))
     val = bytes([draw(st.integers(1, 255)) for _ in range(max(0, n - 1))]) + (bytes([top]) if n > 0 else b'')
+    if n >= 2 and draw(st.integers(0, 3)) == 0:
+        # the limit is on the LENGTH of the operand as given: a small number padded to n bytes (valid where minimal encoding is not required) counts like any other
+        k = draw(st.integers(1, n - 1))
+        val = val[:k - 1] + bytes([val[k - 1] & 0x7f or 1]) + bytes(n - k - 1) + bytes([draw(st.sampled_from([0x00, 0x80]))])
+        flags &= ~F['MINIMALDATA']
     if lock:
         op = draw(st.sampled_from([0xb1, 0xb2]))
         if op == 0xb2 and n >= 4:
